@@ -2,6 +2,7 @@ package sx
 
 import (
 	"bufio"
+	"context"
 	"fmt"
 	"io"
 	"os"
@@ -27,18 +28,26 @@ type solver struct {
 	workDir                      string
 	id                           int
 	capMs                        int
+	kind                         string // "z3" or "cvc5" (string mode)
+	Restarts                     int
+	restarted                    bool
 }
 
 var solverSeq int32
 
-func newSolver(workDir string, capMs int) *solver {
-	s := &solver{workDir: workDir, id: int(atomic.AddInt32(&solverSeq, 1)), BySolver: map[string]int{}, capMs: capMs}
+func newSolver(workDir string, capMs int, kind string) *solver {
+	s := &solver{workDir: workDir, id: int(atomic.AddInt32(&solverSeq, 1)), BySolver: map[string]int{}, capMs: capMs, kind: kind}
 	s.start()
 	return s
 }
 
 func (s *solver) start() {
-	cmd := exec.Command("z3-new", "-in", fmt.Sprintf("-t:%d", s.capMs))
+	// memory-limited (a runaway solver must not take the machine down)
+	line := fmt.Sprintf("ulimit -v 8000000; exec z3-new -in -t:%d", s.capMs)
+	if s.kind == "cvc5" {
+		line = fmt.Sprintf("ulimit -v 8000000; exec cvc5 --incremental --strings-exp --produce-models --tlimit-per=%d", s.capMs*2)
+	}
+	cmd := exec.Command("sh", "-c", line)
 	in, _ := cmd.StdinPipe()
 	outp, _ := cmd.StdoutPipe()
 	cmd.Stderr = os.Stderr
@@ -46,6 +55,9 @@ func (s *solver) start() {
 		panic(engineError{"cannot start z3-new: " + err.Error()})
 	}
 	s.cmd, s.in, s.out = cmd, in, bufio.NewReader(outp)
+	if s.kind == "cvc5" {
+		s.raw("(set-logic ALL)")
+	}
 	s.raw("(set-option :global-declarations true)")
 	s.raw("(set-option :produce-models true)")
 	for _, d := range s.decls {
@@ -62,7 +74,16 @@ func (s *solver) close() {
 	}
 }
 
-func (s *solver) raw(cmd string) { io.WriteString(s.in, cmd+"\n") }
+func (s *solver) raw(cmd string) {
+	if solverLog != "" {
+		f, _ := os.OpenFile(fmt.Sprintf("%s.%d", solverLog, s.id), os.O_APPEND|os.O_CREATE|os.O_WRONLY, 0644)
+		f.WriteString(cmd + "\n")
+		f.Close()
+	}
+	io.WriteString(s.in, cmd+"\n")
+}
+
+var solverLog = os.Getenv("GOSMX_SOLVERLOG")
 
 func (s *solver) declare(d string) {
 	s.decls = append(s.decls, d)
@@ -86,8 +107,61 @@ func (s *solver) assert(t string) {
 	s.raw("(assert " + t + ")")
 }
 
-// readSexp reads one balanced s-expression (or an atom line) from the solver.
+// readSexp reads one answer with a wall-clock watchdog; a solver that does not
+// answer in time is killed and restarted and the answer is "unknown".
 func (s *solver) readSexp() string {
+	type res struct {
+		txt string
+		err interface{}
+	}
+	ch := make(chan res, 1)
+	go func() {
+		defer func() {
+			if r := recover(); r != nil {
+				ch <- res{"", r}
+			}
+		}()
+		ch <- res{s.readSexp1(), nil}
+	}()
+	limit := time.Duration(s.capMs*4+5000) * time.Millisecond
+	select {
+	case r := <-ch:
+		if r.err != nil {
+			s.restart()
+			return "unknown"
+		}
+		return r.txt
+	case <-time.After(limit):
+		s.restart()
+		return "unknown"
+	}
+}
+
+// restart kills the solver process and brings a new one to the same state.
+func (s *solver) restart() {
+	s.Restarts++
+	if s.cmd != nil {
+		s.cmd.Process.Kill()
+		s.in.Close()
+		s.cmd.Wait()
+	}
+	s.start()
+	// re-establish the assertion stack
+	prev := 0
+	for _, m := range s.marks {
+		for _, a := range s.stack[prev:m] {
+			io.WriteString(s.in, "(assert "+a+")\n")
+		}
+		io.WriteString(s.in, "(push)\n")
+		prev = m
+	}
+	for _, a := range s.stack[prev:] {
+		io.WriteString(s.in, "(assert "+a+")\n")
+	}
+	s.restarted = true
+}
+
+func (s *solver) readSexp1() string {
 	var b strings.Builder
 	depth := 0
 	started := false
@@ -130,19 +204,26 @@ func (s *solver) check(extra string, vars []string) (string, map[string]string) 
 		s.raw("(assert " + extra + ")")
 	}
 	s.raw("(check-sat)")
+	s.restarted = false
 	r := s.readSexp()
 	var model map[string]string
 	if r == "sat" && len(vars) > 0 {
 		s.raw("(get-value (" + strings.Join(vars, " ") + "))")
 		model = parseModel(s.readSexp())
 	}
-	s.raw("(pop)")
+	if !s.restarted {
+		s.raw("(pop)")
+	}
 	if strings.HasPrefix(r, "(error") {
 		fmt.Fprintln(os.Stderr, "solver error:", r)
 		r = "unknown"
 	}
 	if r == "sat" || r == "unsat" {
-		s.BySolver["z3-5.1"]++
+		if s.kind == "cvc5" {
+			s.BySolver["cvc5-incremental"]++
+		} else {
+			s.BySolver["z3-5.1"]++
+		}
 		return r, model
 	}
 	// fall back
@@ -186,8 +267,15 @@ func (s *solver) fallback(extra string, vars []string) (string, map[string]strin
 		os.MkdirAll(d, 0755)
 		os.WriteFile(filepath.Join(d, fmt.Sprintf("fb_%d_%d_%d.smt2", os.Getpid(), s.id, s.Fallbacks)), b, 0644)
 	}
-	try := func(name string, args ...string) (string, map[string]string) {
-		out, _ := exec.Command("timeout", append([]string{fmt.Sprint(FallbackTimeout)}, args...)...).CombinedOutput()
+	type ans struct {
+		name, res string
+		model     map[string]string
+	}
+	ctx, cancel := context.WithTimeout(context.Background(), time.Duration(FallbackTimeout)*time.Second)
+	defer cancel()
+	ch := make(chan ans, 3)
+	try := func(name string, args ...string) {
+		out, _ := exec.CommandContext(ctx, "sh", "-c", "ulimit -v 8000000; exec "+strings.Join(args, " ")).CombinedOutput()
 		txt := strings.TrimSpace(string(out))
 		first := txt
 		rest := ""
@@ -195,23 +283,33 @@ func (s *solver) fallback(extra string, vars []string) (string, map[string]strin
 			first, rest = txt[:k], txt[k+1:]
 		}
 		if first == "unsat" {
-			s.BySolver[name]++
-			return "unsat", nil
+			ch <- ans{name, "unsat", nil}
+			return
 		}
 		if first == "sat" && !strings.Contains(rest, "(error") {
-			s.BySolver[name]++
-			return "sat", parseModel(rest)
+			ch <- ans{name, "sat", parseModel(rest)}
+			return
 		}
-		return "unknown", nil
+		ch <- ans{name, "unknown", nil}
 	}
-	if r, m := try("cvc5-bv-as-int", "cvc5", "--solve-bv-as-int=sum", "--produce-models", f); r != "unknown" {
-		return r, m
+	n := 3
+	if s.kind == "cvc5" {
+		n = 3
+		go try("z3-5.1-oneshot", "z3-new", f)
+		go try("cvc5-strings", "cvc5", "--strings-exp", "--produce-models", f)
+		go try("z3-4.8", "z3", f)
+	} else {
+		go try("cvc5-bv-as-int", "cvc5", "--solve-bv-as-int=sum", "--produce-models", f)
+		go try("cvc5", "cvc5", "--produce-models", f)
+		go try("z3-4.8", "z3", f)
 	}
-	if r, m := try("cvc5", "cvc5", "--produce-models", f); r != "unknown" {
-		return r, m
-	}
-	if r, m := try("z3-4.8", "z3", "-T:"+fmt.Sprint(FallbackTimeout), f); r != "unknown" {
-		return r, m
+	for k := 0; k < n; k++ {
+		a := <-ch
+		if a.res != "unknown" {
+			s.BySolver[a.name]++
+			cancel()
+			return a.res, a.model
+		}
 	}
 	return "unknown", nil
 }
